@@ -296,3 +296,29 @@ func verifHTMLTreeCheck(in []byte) {
 	}
 	vReach("end")
 }
+
+var verifPContainers = []string{"x-a", "ins", "del", "a", "map", "noscript", "canvas", "video", "audio", "div", "li", "custom-element", "slot", "dd"}
+
+// VerifHTMLPInContainer: <X><p>a</p>TAIL</X>b for 14 container elements X (custom elements, transparent-content
+// elements, flow containers; all of them may contain a p in conforming documents) and 3 tails: the </p> in front of the container's end tag may only go when the end tag
+// closes the paragraph as well (which </x-a> and other non-special or transparent elements do not: the parser ignores
+// such an end tag while a p is open, and the following content moves into the paragraph).
+func VerifHTMLPInContainer(n int) {
+	var x string
+	if n > 0 {
+		x = verifPContainers[n-1] // development aid: one container
+	} else {
+		x = verifPContainers[vChoice("x", len(verifPContainers))]
+	}
+	tail := []string{"", " ", "<!--c-->"}[vChoice("tail", 3)]
+	pre, post := "", ""
+	if x == "td" {
+		pre, post = "<table><tr>", "</tr></table>"
+	} else if x == "li" {
+		pre, post = "<ul>", "</ul>"
+	} else if x == "dd" {
+		pre, post = "<dl>", "</dl>"
+	}
+	in := []byte(pre + "<" + x + "><p>a</p>" + tail + "</" + x + ">" + post + "b")
+	verifHTMLTreeCheck(in)
+}
